@@ -227,27 +227,76 @@ def r_underscore(text):
     return apply_edits(text, edits), len(edits)
 
 
+def _match_pat(toks, i, pat):
+    """match pattern tokens (with holes ('$', name)) at toks[i]; returns (end_index, {name: (lo, hi)}) or None."""
+    caps = {}
+    j = i
+    k = 0
+    while k < len(pat):
+        p = pat[k]
+        if isinstance(p, tuple):
+            # hole: balanced run up to the next literal pattern token at depth 0 (or a closer at depth 0)
+            nxt = pat[k + 1] if k + 1 < len(pat) else None
+            lo = j
+            while j < len(toks):
+                t = toks[j]
+                if nxt is not None and not isinstance(nxt, tuple) and t.text == nxt and j > lo:
+                    break
+                if t.kind == "punct" and t.text in OPEN:
+                    j = match_close(toks, j) + 1
+                    continue
+                if t.kind == "punct" and t.text in CLOSE:
+                    break
+                j += 1
+            if j == lo:
+                return None
+            caps[p[1]] = (lo, j)
+            k += 1
+            continue
+        if j >= len(toks) or toks[j].text != p:
+            return None
+        j += 1
+        k += 1
+    return j, caps
+
+
 def sub(text, old, new, count=1):
-    """literal replacement keyed on *tokens* (whitespace/comment-insensitive); count must match."""
+    """literal replacement keyed on *tokens* (whitespace/comment-insensitive); count must match.
+    `$A`, `$B`.. in `old` are holes matching a balanced token run; `$A` in `new` is replaced by the captured source text."""
     toks = tokenize(text)
-    pat = texts(tokenize(old))
-    hits = find_seq(toks, pat)
-    # drop overlapping hits
+    raw = tokenize(old)
+    pat = []
+    k = 0
+    while k < len(raw):
+        if raw[k].text == "$" and k + 1 < len(raw) and raw[k + 1].kind == "id":
+            pat.append(("$", raw[k + 1].text))
+            k += 2
+        else:
+            pat.append(raw[k].text)
+            k += 1
     sel = []
-    last = -1
-    for h in hits:
-        if h > last:
-            sel.append(h)
-            last = h + len(pat) - 1
+    i = 0
+    first = pat[0]
+    while i < len(toks):
+        if isinstance(first, tuple) or toks[i].text == first:
+            m = _match_pat(toks, i, pat)
+            if m:
+                sel.append((i, m[0], m[1]))
+                i = m[0]
+                continue
+        i += 1
     if count is not None and len(sel) != count:
         raise LostAnchor("sub: pattern %r matches %d times, expected %d" % (old, len(sel), count))
     edits = []
-    for h in sel:
-        a = toks[h].start
-        b = toks[h + len(pat) - 1].end
+    for lo, hi, caps in sel:
+        a = toks[lo].start
+        b = toks[hi - 1].end
+        rep = new
+        for name, (clo, chi) in caps.items():
+            rep = rep.replace("$" + name, text[toks[clo].start:toks[chi - 1].end])
         seg = text[a:b]
-        pad = "\n" * max(0, seg.count("\n") - new.count("\n"))
-        edits.append((a, b, new + pad))
+        pad = "\n" * max(0, seg.count("\n") - rep.count("\n"))
+        edits.append((a, b, rep + pad))
     return apply_edits(text, edits), len(sel)
 
 
